@@ -119,3 +119,20 @@ def greedy_locate(source: bytes, raws, start=0):
         offs.append(j)
         pos = j + len(raw)
     return offs, None
+
+
+_RECFRAMES = []
+
+
+def recorded_frames(clean_only=True):
+    """Distinct well-formed frames found in the repository's recorded logs: [(log name, frame)] (own framing/CRC)."""
+    if not _RECFRAMES:
+        seen = set()
+        for name, data in recorded_logs(4000000):
+            if clean_only and "BAD" in name.upper():
+                continue
+            for off, fr in split_frames(data):
+                if fr not in seen:
+                    seen.add(fr)
+                    _RECFRAMES.append((name, fr))
+    return list(_RECFRAMES)
